@@ -31,7 +31,7 @@ ASSUMPTIONS = [
 FLOORS = {'quick': {'states': 300, 'transitions': 5000, 'counter:rejected': 1500, 'outcomes': 10}, 'thorough': {'states': 300, 'transitions': 5000, 'counter:rejected': 1500, 'outcomes': 10}}
 
 SEED = (
-    '@charset "utf-8";\n@import "x.css" print;\n@namespace p "u";\n/*c*/\n'
+    '@charset "utf-8";\n@import "x.css" print;\n@namespace p "u";\n@variables { v: 1; vv: 2 }\n/*c*/\n'
     'a, p|b > c { color: red; top: 1px !important }\n'
     '@media print, tv { d { x: y } }\n'
     '@page :first { margin: 0; @top-left { x: y } }\n'
@@ -81,6 +81,8 @@ TARGETS = {
     'page.margin': lambda s: rule_of(s, R.PAGE_RULE).cssRules[0],
     'fontface': lambda s: rule_of(s, R.FONT_FACE_RULE),
     'unknown': lambda s: rule_of(s, R.UNKNOWN_RULE),
+    'variables': lambda s: rule_of(s, R.VARIABLES_RULE),
+    'variables.decl': lambda s: rule_of(s, R.VARIABLES_RULE).variables,
 }
 
 # ---- argument menus: (0-2 acceptable parts) + (one rejected part) + (0-1 acceptable part) --------------------------
@@ -102,7 +104,15 @@ COMMENT_TEXTS = ['/*d*/', '/*d', 'd', '', '/*d*/ /*e*/', '/*d*/a{}']
 PROPERTY_TEXTS = ['z:w', 'z:w!important', '$$:w', 'z:$$', 'z', '', 'z:w;u:v', 'z:w!x', 'z w', ':w']
 VALUE_TEXTS = ['w', '1px 2px', '$$', '1px $$', 'f(', 'f(1,', '', '1px;', '"s', 'rgb(1,2)', 'w !important', 'url(', 'calc(1px +)']
 SHEET_TEXTS = ['a{x:y}', '', 'a{x:y}@import "x.css";', 'q|a{x:y}', '@namespace q "v";q|a{x:y}', 'a{x:y}@charset "x";', '@import "x.css";@namespace p "u";p|b{x:y}$${}', 'a{x:y}}',
-               '@media tv{@import "q";}', '@page $${}', 'a{x:y}@namespace p "u";']
+               '@media tv{@import "q";}', '@page $${}', 'a{x:y}@namespace p "u";', '@variables{b:1;v:9}a{x:y}@import "x.css";', '@variables{b:1}', '@variables{b:1}$${}']
+VARIABLES_TEXTS = ['@variables{w:2}', '@variables{', '@variables{w:$$}', '@variables{w:2}}', 'a{}', '', '@variables{w:2} a{}', '@variables{w:2;$$}', '@variables{w:2}/*c*/']
+VARDECL_TEXTS = ['w:2', 'w:2;u:3', '$$', 'w:$$', 'w', '', 'w:2}', 'w:2;$$:3', '/*c*/w:2']
+# wellformed texts whose at-keyword is written with an escape: refused (if at all) by the keyword check only
+ESCAPED_KEYWORD = {
+    'import': ['@\\69mport "y.css";', '@impor\\74  "y.css" tv;'], 'namespace': ['@n\\61mespace q "v";'], 'page': ['@p\\61ge :left{z:w}', '@\\70 age{z:w;@top-left{z:w}}'],
+    'media': ['@m\\65 dia tv{e{z:w}}'], 'fontface': ['@f\\6Fnt-face{font-family:g}'], 'charset': ['@ch\\61rset "ascii";'], 'margin': ['@t\\6Fp-left{z:w}', '@top-l\\65 ft{z:w}'],
+    'variables': ['@v\\61riables{w:2}'], 'unknown': ['@\\79 z;'],
+}
 NAMES = ['z', 'Z', '$$', '', 'a b', '-x', 'z:w', '1z']
 PRIORITIES = ['', 'important', '!important', 'x', '!x', '!', 'important x', '$$']
 ENCODINGS = [None, 'ascii', 'utf-8', 'x-unknown', '', 'css']
@@ -170,7 +180,15 @@ MUTATORS = {
     'page.margin': [('cssText=', _set('cssText'), MARGIN_TEXTS), ('margin=', _set('margin'), ['@top-right', '@x', 'top-left', '', None]), ('style=', _set('style'), DECL_TEXTS)],
     'fontface': [('cssText=', _set('cssText'), FONTFACE_TEXTS), ('style=', _set('style'), DECL_TEXTS)],
     'unknown': [('cssText=', _set('cssText'), UNKNOWN_TEXTS)],
+    'variables': [('cssText=', _set('cssText'), VARIABLES_TEXTS), ('variables=', _set('variables'), VARDECL_TEXTS)],
+    'variables.decl': [('cssText=', _set('cssText'), VARDECL_TEXTS), ('setVariable', lambda o, a: o.setVariable(a[0], a[1]), [('w', '2'), ('v', '3'), ('$$', '2'), ('w', '$$'), ('', '2'), ('w', '2;u:3'), ('v', '')]),
+                       ('removeVariable', lambda o, n: o.removeVariable(n), ['v', 'V', 'nope', '', '$$']), ('[n]=', lambda o, a: o.__setitem__(a[0], a[1]), [('w', '2'), ('w', '$$'), ('$$', '2')]),
+                       ('del [n]', lambda o, n: o.__delitem__(n), ['v', 'nope'])],
 }
+for _t, _k in (('import', 'import'), ('namespace', 'namespace'), ('page', 'page'), ('media', 'media'), ('fontface', 'fontface'), ('charset', 'charset'), ('page.margin', 'margin'),
+               ('variables', 'variables'), ('unknown', 'unknown')):
+    assert MUTATORS[_t][0][0] == 'cssText='
+    MUTATORS[_t][0] = ('cssText=', MUTATORS[_t][0][1], list(MUTATORS[_t][0][2]) + ESCAPED_KEYWORD[_k])
 
 
 def bounds(tier):
@@ -191,6 +209,7 @@ def observe(s):
             out.append(tuple(sorted(s.namespaces.items())))
         except Exception as e:
             out.append(('ERR', type(e).__name__))
+        out.append(tuple(sorted((k, s.variables[k]) for k in s.variables)))
         for r in s.cssRules:
             row = [r.typeString, r.cssText, r.parentStyleSheet is s, r.parentRule is None]
             if r.type == R.STYLE_RULE:
@@ -207,6 +226,8 @@ def observe(s):
                 row += [_props(r.style)]
             elif r.type == R.CHARSET_RULE:
                 row += [r.encoding]
+            elif r.type == R.VARIABLES_RULE:
+                row += [tuple((k, r.variables[k]) for k in r.variables), r.variables.cssText, r.variables.parentRule is r]
             out.append(tuple(row))
         return tuple(out)
     finally:
@@ -278,12 +299,12 @@ def judge(res, prior, target, mi, ai):
 
 
 def _what_changed(a, b):
-    names = ['sheet.cssText', 'encoding', 'namespaces']
+    names = ['sheet.cssText', 'encoding', 'namespaces', 'variables']
     ch = [n for n, x, y in zip(names, a, b) if x != y and n != 'sheet.cssText']
     if len(a) != len(b):
         ch.append('number-of-rules')
     else:
-        for x, y in zip(a[3:], b[3:]):
+        for x, y in zip(a[4:], b[4:]):
             if x != y:
                 ch.append('rule:' + str(x[0]))
     return '+'.join(sorted(set(ch))) or 'sheet.cssText'
@@ -312,6 +333,8 @@ READONLY = [
     ('MediaQuery', lambda: stylesheets.MediaQuery('print', readonly=True), 'media.query0'),
     ('PropertyValue', lambda: css.PropertyValue('1px', readonly=True), 'style.value0'),
     ('CSSStyleSheet', lambda: _ro_sheet(), 'sheet'),
+    ('CSSVariablesRule', lambda: css.CSSVariablesRule(variables=css.CSSVariablesDeclaration('v:1;vv:2'), readonly=True), 'variables'),
+    ('CSSVariablesDeclaration', lambda: css.CSSVariablesDeclaration('v:1;vv:2', readonly=True), 'variables.decl'),
 ]
 
 
